@@ -17,6 +17,17 @@ EXEC_FLAGS = frozenset({"-x", "--exec", "-X", "--exec-batch"})
 # Short flags without an argument (may precede -x/-X in one cluster)
 _SHORT_NOARG = frozenset("HIusigFaLp0lq1")
 
+# Placeholders fd substitutes in the command; without one it appends the path
+_PLACEHOLDERS = ("{}", "{/}", "{//}", "{.}", "{/.}")
+
+
+def _with_path(words: list[str]) -> list[str]:
+    """The command as fd runs it: with no placeholder, the found path is appended."""
+    if any(p in w for w in words for p in _PLACEHOLDERS):
+        return words
+    return words + ["{}"]
+
+
 # Map flags to descriptive form
 FLAG_DISPLAY = {
     "-x": "-x (execute)",
@@ -57,7 +68,7 @@ def classify(ctx: HandlerContext) -> Classification:
                 inner = [token[len(flag) :]] + tokens[i + 1 :]
                 return Classification(
                     "delegate",
-                    inner_command=" ".join(bash_quote(t) for t in inner),
+                    inner_command=" ".join(bash_quote(t) for t in _with_path(inner)),
                     description=f"fd {flag.rstrip('=')} {inner[0]}",
                 )
 
@@ -84,7 +95,7 @@ def classify(ctx: HandlerContext) -> Classification:
         if not inner_tokens or rest.action == "ask":
             return Classification("ask", description="fd --exec")
         if rest.action == "delegate":
-            inner_cmd = " ".join(bash_quote(t) for t in inner_tokens)
+            inner_cmd = " ".join(bash_quote(t) for t in _with_path(inner_tokens))
             return Classification(
                 "delegate",
                 inner_command=inner_cmd + "; " + rest.inner_command,
@@ -92,7 +103,7 @@ def classify(ctx: HandlerContext) -> Classification:
             )
 
     # Delegate to inner command check
-    inner_cmd = " ".join(bash_quote(t) for t in inner_tokens)
+    inner_cmd = " ".join(bash_quote(t) for t in _with_path(inner_tokens))
     flag_desc = FLAG_DISPLAY.get(exec_flag, exec_flag)
     return Classification(
         "delegate",
